@@ -975,6 +975,9 @@ pub fn handshakes(seed: u64) -> Plan {
     let mut seeder = base_peer(0, n);
     // stay interested so that the client keeps this connection after finishing
     seeder.script.push(step(When::At(1), Act::Send(Msg::Interested)));
+    // in some runs pieces keep completing while the odd peers connect
+    seeder.answer.delay_min = *r.pick(&[0u64, 0, 300, 1200]);
+    seeder.answer.delay_max = seeder.answer.delay_min;
     p.peers.push(seeder);
     let ih_placeholder = [0u8; 20];
     let _ = ih_placeholder;
@@ -1212,7 +1215,7 @@ pub fn bookkeeping(seed: u64) -> Plan {
 pub fn choking(seed: u64) -> Plan {
     let mut r = Rng64::sub(seed, "choking");
     let piece_len = *r.pick(&[2000u64, 16384, 20000]);
-    let n_p = r.range(12, 30);
+    let n_p = r.range(20, 40);
     let g = simple_geometry(piece_len, n_p * piece_len - r.range(0, piece_len - 1));
     let n = g.pieces();
     let mut p = base_plan("choking", seed, g);
@@ -1231,7 +1234,7 @@ pub fn choking(seed: u64) -> Plan {
         // they never learn what they could request
         peer.unchoke = if seeder { Unchoke::OnInterested(r.range(1, 300)) } else { Unchoke::At(r.range(1, 500)) };
         // different speeds (tied for some runs)
-        let d = if tied { 500 } else { *r.pick(&[100u64, 300, 700, 1500, 3000]) };
+        let d = if tied { 1500 } else { *r.pick(&[500u64, 1000, 2000, 3000, 5000]) };
         peer.answer.delay_min = d;
         peer.answer.delay_max = d + if tied { 0 } else { r.range(0, 200) };
         peer.keepalive = Some(60_000);
@@ -1240,10 +1243,13 @@ pub fn choking(seed: u64) -> Plan {
             peer.dial_in = vec![r.range(0, 20_000)];
         }
         // interest toggling and requests
-        let mut t = r.range(1, 3000);
-        if r.chance(4, 5) {
+        // most peers declare interest right after the handshake: a peer that is not interested
+        // when the client has nothing more to fetch from it is dropped by the client
+        let mut t = if r.chance(3, 4) { 0 } else { r.range(1, 3000) };
+        if r.chance(9, 10) {
             peer.script.push(step(When::At(t), Act::Send(Msg::Interested)));
-            for _ in 0..r.range(0, 3) {
+            t += 30_000;
+            for _ in 0..r.range(0, 2) {
                 t += r.range(2000, 25_000);
                 peer.script.push(step(When::At(t), Act::Send(Msg::NotInterested)));
                 t += r.range(100, 15_000);
